@@ -435,7 +435,7 @@ fn resize<const L: usize, const T: usize>(c: &Case, rep: &mut Rep) {
     let got: Int<T> = Int::<T>::from(&x);
     ex(rep, "From<&Int>", &il(&got), &want);
 }
-fn c_resize(c: &Case, rep: &mut Rep) {
+pub fn c_resize(c: &Case, rep: &mut Rep) {
     dispatch2!(c.w[0], c.w[1], [1, 2, 3, 4, 8, 16], [1, 2, 3, 4, 8, 16], resize(c, rep))
 }
 
@@ -463,7 +463,7 @@ fn from_prim<const L: usize>(c: &Case, rep: &mut Rep) {
         prim!(i128, from_i128, "i128");
     }
 }
-fn c_from_prim(c: &Case, rep: &mut Rep) {
+pub fn c_from_prim(c: &Case, rep: &mut Rep) {
     dispatch!(c.w[0], [1, 2, 3, 4, 8, 16], from_prim(c, rep));
     let v: i128 = (((c.s[1] as u128) << 64) | c.s[0] as u128) as i128;
     if c.w[0] == 1 {
